@@ -201,10 +201,12 @@ def run(ctx):
             events=len(alpha),
             behaviours=len(BEHAVIOURS) + 1,
             max_distinct_outcomes_per_event=res["max_distinct_outcomes_per_event"],
-            explanation="the search runs the real compiler objects (no model): every transition is a real call replayed from S0 in a forked child, so every explored trace is an implementation trace",
+            explanation="the search runs the real compiler objects (no model): every transition is a real call replayed from S0 in a forked child, so every explored trace is an implementation trace; "
+            "what the state digest leaves out is covered separately: every history of length 2 is run without state merging, and the temporaries counter is driven to every value of a range that brackets the changes of its decimal length by real compilations (with and without interleaved failures) before every event; "
+            "the alphabet has a behaviour for every item of persistent state, failures with pending value-producing operations, write-only / read-only / .new / plain use of every operand kind, and one instruction name (and folded alias names) used with different behaviours",
             **extra
         ),
-        assumptions=["parsing is a pure function of grammar and text (established separately by C17); events are handed pre-parsed trees / a memoised Lark.parse", "state digest drops Compiler.compiled_insns/parsed_insns (result caches never read by a compile path) and, for C14 only, the temporary counter"],
+        assumptions=["parsing is a pure function of grammar and text (established separately by C17); events are handed pre-parsed trees / a memoised Lark.parse", "state digest drops Compiler.compiled_insns/parsed_insns and, for C14 only, the temporaries counter; both abstractions are validated by the unmerged length-2 layer and the counter sweep on every run"],
     )
 
 
